@@ -181,7 +181,7 @@ class Gen:
     # -------------------------------------------------------------------------------------------
     def build(self, nfuncs=12):
         rng = self.rng
-        out = ["import functools", "", "", "class Err(Exception):", "    pass", "", "",
+        out = ["import functools", "", "", "class Err(Exception):", "    pass", "", "", "class Meta(type):", "    pass", "", "",
                "class Suspend:", "    def __await__(self):", "        yield", "", "",
                "def deco(f):", "    @functools.wraps(f)", "    def wrapper(*a, **kw):", "        return f(*a, **kw)", "    return wrapper", "", ""]
         if self.values:
@@ -190,7 +190,7 @@ class Gen:
         ncls = rng.choice([1, 2, 3])
         classes = {}  # name -> dict(lines, base, init)
         for c in range(ncls):
-            classes[f"K{c}"] = {"members": [], "base": None, "init": None}
+            classes[f"K{c}"] = {"members": [], "base": None, "init": None, "meta": rng.random() < 0.4}
         if rng.random() < 0.7:
             classes["S0"] = {"members": [], "base": "K0", "init": None}
         module_funcs = []
@@ -338,7 +338,8 @@ class Gen:
             out += [f"class V{n}:", "    pass", ""]
         out.append("")
         for cname, c in self._classes.items():
-            out.append(f"class {cname}({c['base']}):" if c["base"] else f"class {cname}:")
+            meta = "metaclass=Meta" if c.get("meta") else ""
+            out.append(f"class {cname}({c['base']}):" if c["base"] else (f"class {cname}({meta}):" if meta else f"class {cname}:"))
             if not c["members"] and not c.get("nested"):
                 out.append("    pass")
             for m in c["members"]:
@@ -389,4 +390,14 @@ def build(rng, name, nfuncs=12, opts=None, live=4, abandon=False):
                 entries.append(["exhaust", s])
         else:
             entries.append(["exhaust", s])
-    return {"source": g.finish(), "labels": g._labels, "entries": entries, "name": name}
+    pre = []
+    if opts and opts.get("prestart"):
+        # some generators take their first steps before tracing is switched on; inside the traced block they are
+        # resumed, thrown into, closed or dropped.  They were never seen from their start: nothing may be logged for them.
+        gens = [f for f in callable_fns if f.flavor == "gen"]
+        for j, f in enumerate(gens[:3]):
+            slot = 900 + j
+            pre += [["spawn", slot, f.call_expr(g, rng), "gen"], ["step", slot]]
+            entries.insert(rng.randrange(len(entries) + 1), [rng.choice(["step", "throw", "close", "drop", "exhaust"]), slot])
+            entries.append(["exhaust", slot])
+    return {"source": g.finish(), "labels": g._labels, "entries": entries, "pre": pre, "name": name}
